@@ -649,5 +649,7 @@ func main() {
 		if c.Expired() {
 			c.NotExhaustive("time budget hit before all chunkings of all %d streams were evaluated", len(jobs))
 		}
+		// E-SCHED companion: concurrent senders on one connection (12 scenarios)
+		c.ForkSched(12, 16)
 	})
 }
